@@ -50,7 +50,7 @@ def run(ctx):
                 "get_edge pops the head for a new value (count 2, id entered in the table) and answers OutOfMemory exactly at the "
                 "end of the store.")
     ntl = efreelist.check_terminal_links(ctx, F)
-    ctx.floor("E-FREELIST.term.link", "interpreted terminal free-list situations", ntl, 7)
+    ctx.floor("E-FREELIST.term.link", "interpreted terminal free-list situations", ntl, 8)
     nt = eterm.run(ctx, F)
     ctx.floor("E-NUM.terminals", "interpreted terminal situations", nt, 81)
     ctx.floor("E-TABLE.i64", "abstract cases of the I64 operators", n, 140)
